@@ -52,6 +52,9 @@ type ExtProp struct {
 // ExtVocab is an extension vocabulary layered on ActivityStreams.
 type ExtVocab struct {
 	Label string
+	// Extra names further shipped vocabulary files (under astool/) the extension references besides
+	// ActivityStreams; their types are written "forge:<Name>".
+	Extra []string
 	Types []ExtType
 	Props []ExtProp
 }
@@ -59,7 +62,7 @@ type ExtVocab struct {
 // JSON renders the vocabulary in the form astool reads.
 func (v ExtVocab) JSON() []byte {
 	ctx := L{
-		M{"as": "https://www.w3.org/ns/activitystreams", "owl": "http://www.w3.org/2002/07/owl#", "rdf": "http://www.w3.org/1999/02/22-rdf-syntax-ns#",
+		M{"as": "https://www.w3.org/ns/activitystreams", "forge": "https://forgefed.peers.community/ns", "owl": "http://www.w3.org/2002/07/owl#", "rdf": "http://www.w3.org/1999/02/22-rdf-syntax-ns#",
 			"rdfs": "http://www.w3.org/2000/01/rdf-schema#", "rfc": "https://tools.ietf.org/html/", "schema": "http://schema.org/", "xsd": "http://www.w3.org/2001/XMLSchema#"},
 		M{"domain": "rdfs:domain", "isDefinedBy": "rdfs:isDefinedBy", "mainEntity": "schema:mainEntity", "members": "owl:members", "name": "schema:name",
 			"range": "rdfs:range", "subClassOf": "rdfs:subClassOf", "disjointWith": "owl:disjointWith", "subPropertyOf": "rdfs:subPropertyOf", "unionOf": "owl:unionOf", "url": "schema:URL"},
@@ -236,6 +239,21 @@ func MinimalVocabs() []ExtVocab {
 			Props: []ExtProp{{Name: fmt.Sprintf("vr%da", i), Domain: []string{"as:Object"}, Range: r, Functional: true}, {Name: fmt.Sprintf("vr%db", i), Domain: []string{"Alpha"}, Range: r, Without: []string{"Beta"}}}})
 	}
 	return out
+}
+
+// ThreeVocabs: an extension layered on ActivityStreams AND ForgeFed (three vocabulary files): types
+// below a ForgeFed type, properties whose domain / range / withheld-from lists name ForgeFed types.
+func ThreeVocabs() ExtVocab {
+	return ExtVocab{Label: "three-vocabularies", Extra: []string{"forgefed.jsonld"}, Types: []ExtType{
+		{"Alpha", []string{"as:Object"}, nil, false},
+		{"Trouble", []string{"forge:Ticket"}, nil, false},
+		{"Calamity", []string{"Trouble", "Alpha"}, []string{"forge:Commit"}, false},
+	}, Props: []ExtProp{
+		{Name: "vt1", Domain: []string{"forge:Ticket"}, Range: []string{"xsd:string"}, Functional: true},
+		{Name: "vt2", Domain: []string{"Trouble", "forge:Repository"}, Range: []string{"forge:Commit", "as:Note"}},
+		{Name: "vt3", Domain: []string{"as:Object"}, Range: []string{"Trouble", "xsd:anyURI"}, Functional: true},
+		{Name: "vt4", Domain: []string{"forge:Ticket", "Alpha"}, Range: []string{"rdf:langString", "xsd:string"}, Without: []string{"Calamity"}},
+	}}
 }
 
 func contains(l []string, s string) bool {
